@@ -409,6 +409,9 @@ func (x *c16world) canaryCheck() *core.Result {
 }
 
 func runC16(c *core.Case) *core.Result {
+	if c.Index%150 == 149 {
+		return c16Shutdown(c) // a request that arrives while the server process shuts down
+	}
 	w, err := newSvcWorld(c, "colA")
 	if err != nil {
 		return c.Inconclusive("test bed did not start: %v", err)
